@@ -253,3 +253,43 @@ func (r *ruler) jumpRules() {
 		r.s.Bad("V18", "vm.Run / every other instruction continues at ip + 1", r.pos, fmt.Sprintf("%d paths; offenders: %s", n, strings.Join(bad, "; ")))
 	}
 }
+
+// atonRule (V19): aton reads its argument as a decimal integer, else as a
+// float, else it is a conversion error; the text converted is the argument
+// itself (no trimming, no other base), and the result is pushed as Int / Float.
+func (r *ruler) atonRule() {
+	n := 0
+	for _, pa := range r.normal("ATON") {
+		if pa.Conds[0] != "ctxp.parent == nil" {
+			continue
+		}
+		n++
+		ts := events(pa, "call", ".ToString")
+		if len(ts) != 1 || ts[0].Args[0] != "V0" {
+			r.s.Bad("V19", r.key("ATON", "converts its operand"), r.ppos(pa), "aton must convert the string payload of its operand", pa.Describe()...)
+			continue
+		}
+		text := strings.TrimPrefix(strings.Split(ts[0].Res, ", ")[0], "(")
+		var convs []string
+		for _, ev := range pa.Events {
+			if ev.Kind == "call" && strings.HasPrefix(ev.Fn, "strconv.") {
+				convs = append(convs, strings.TrimPrefix(ev.Fn, "strconv.")+"("+strings.Join(ev.Args, ",")+")")
+			}
+		}
+		intForms := map[string]bool{"Atoi(" + text + ")": true, "ParseInt(" + text + ",10,64)": true, "ParseInt(" + text + ",10,0)": true}
+		floatForm := "ParseFloat(" + text + ",64)"
+		ok := false
+		what := ""
+		switch {
+		case len(convs) == 1 && intForms[convs[0]] && len(events(pa, "call", "value.NewInt")) == 1:
+			ok, what = true, "decimal integer"
+		case len(convs) == 2 && intForms[convs[0]] && convs[1] == floatForm && len(events(pa, "call", "value.NewFloat")) == 1:
+			ok, what = true, "float after the integer conversion failed"
+		}
+		key := r.key("ATON", fmt.Sprintf("decimal integer, else float (success path %d)", n))
+		r.okIf("V19", key, pa, ok, what, "aton converts exactly its argument text with the decimal integer conversion (strconv.Atoi / ParseInt base 10) and, if that fails, with ParseFloat(text, 64): another base accepts 0x10 and reads 010 as 8, a trimmed or otherwise edited text accepts strings the documentation calls conversion errors; found "+strings.Join(convs, " then "))
+	}
+	if n < 2 {
+		r.s.Bad("V19", r.key("ATON", "success paths"), r.pos, fmt.Sprintf("aton must have an integer and a float success path, found %d", n))
+	}
+}
